@@ -232,8 +232,10 @@ func (manager *TableManager) DeleteVrf(name string) ([]*Path, error) {
 		slog.Any("MplsLabel", vrf.MplsLabel),
 	)
 	delete(manager.vrfs, name)
-	rtcTable := manager.tables[bgp.RF_RTC_UC]
-	msgs = append(msgs, rtcTable.deleteRTCPathsByVrf(vrf, manager.vrfs)...)
+	// a global RIB configured without the rtc family has no such table
+	if rtcTable, ok := manager.tables[bgp.RF_RTC_UC]; ok && rtcTable != nil {
+		msgs = append(msgs, rtcTable.deleteRTCPathsByVrf(vrf, manager.vrfs)...)
+	}
 	return msgs, nil
 }
 
